@@ -14,6 +14,12 @@ PRIORS = {'none': (), 'success': (['valid'],), 'rejected@.5T': (['exc@.5T'],), '
           'timeout+rejected': (['drop', 'exc2'],), 'timeout+icmp': (['drop', 'icmp'],), 'timeout+success': (['drop', 'valid'],)}
 
 
+def prior_of(name):
+    """'1:<letter>': one earlier request whose first transmission is answered by <letter> (any letter of the alphabet),
+    later transmissions of it by 'valid'."""
+    return ([name[2:]],) if name.startswith('1:') else PRIORS[name]
+
+
 def monitor(cfg, obs):
     """-> list of (clause, cause) violated by this execution."""
     T, R = cfg['T'], cfg['R']
@@ -37,7 +43,9 @@ def monitor(cfg, obs):
     if t1 > last + bound + TOL:
         out.append(('completes<=last+T', f'done at {t1:.6f}, last event {last:.6f}'))
     # silence: exactly R+1 identical transmissions spaced T, failure at last + T
-    if all(ltr == 'drop' for ltr in obs.letters) and all(c[1] == 'ok' for c in obs.connects):
+    # (only if nothing of an earlier request was still in flight when this one started, and nothing arrived meanwhile)
+    quiet = obs.get('clean_start', True) and not [e for e in obs.events if e[0] == 'rx' and obs.t0 - TOL <= e[2] <= t1 + TOL]
+    if all(ltr == 'drop' for ltr in obs.letters) and all(c[1] == 'ok' for c in obs.connects) and quiet:
         if ntx != R + 1:
             out.append(('silent:R+1', f'{ntx} transmissions'))
         else:
@@ -69,7 +77,7 @@ def shrink(cfg, choices, shape, letters, conn_letters, clause):
     def fails(ch):
         ctx = Ctx(ch)
         try:
-            obs = run_single(cfg, ctx, letters, conn_letters, fp=False, prior=PRIORS[cfg.get('prior', 'none')])
+            obs = run_single(cfg, ctx, letters, conn_letters, fp=False, prior=prior_of(cfg.get('prior', 'none')))
         except Exception:
             return False
         return any(c == clause for c, _ in monitor(cfg, obs))
@@ -85,7 +93,7 @@ def shrink(cfg, choices, shape, letters, conn_letters, clause):
                     cur = t
                     changed = True
     ctx = Ctx(cur)
-    obs = run_single(cfg, ctx, letters, conn_letters, fp=False, prior=PRIORS[cfg.get('prior', 'none')])
+    obs = run_single(cfg, ctx, letters, conn_letters, fp=False, prior=prior_of(cfg.get('prior', 'none')))
     names = [(nm, (letters if nm.startswith('tx') else conn_letters if nm.startswith('connect') else None))
              for nm, _, _ in ctx.trace]
     script = [opts[c] if opts else f'{nm}={c}' for (nm, opts), (_, _, c) in zip(names, ctx.trace)]
@@ -106,7 +114,7 @@ def job(j):
     vio = {}
 
     def run(ctx):
-        return run_single(cfg, ctx, letters, conn_letters, prior=PRIORS[cfg.get('prior', 'none')])
+        return run_single(cfg, ctx, letters, conn_letters, prior=prior_of(cfg.get('prior', 'none')))
 
     def on_exec(ctx, obs):
         st.note(ctx, classify(cfg, obs))
@@ -128,8 +136,9 @@ def job(j):
     for (clause,), lst in vio.items():
         choices, cause = lst[0]
         mn, script, obs = shrink(cfg, choices, None, letters, conn_letters, clause)
-        again = monitor(cfg, run_single(cfg, Ctx(mn), letters, conn_letters, fp=False, prior=PRIORS[cfg.get('prior', 'none')]))
-        cell = f"{cfg['transport']}/ka={int(cfg['ka'])}" + (f"/after:{cfg['prior']}" if cfg.get('prior', 'none') != 'none' else '')
+        again = monitor(cfg, run_single(cfg, Ctx(mn), letters, conn_letters, fp=False, prior=prior_of(cfg.get('prior', 'none'))))
+        cell = f"{cfg['transport']}/ka={int(cfg['ka'])}" + (f"/after:{cfg['prior']}" if cfg.get('prior', 'none') != 'none' else '') + \
+            ('/drained' if cfg.get('drain') else '')
         key = f"{clause}/{cell}/{cause_of(script)}"
         if not any(c == clause for c, _ in again):
             key = f"{clause}/{cell}/order-dependent"
@@ -194,6 +203,12 @@ def run(tier, seed, rep):
                 if tier == 'thorough':
                     cfg = dict(transport=tr, ka=ka, T=1, R=2, cmd='read', prior=prior)
                     jobs.append((cfg, 'deviations', 2, alphabet(tr), CONNECT if tr == 'tcp' else ['ok'], None))
+            # every single-letter earlier request (the whole alphabet), then the full product for the explored request
+            for letter in alphabet(tr)[1:]:
+                cfg = dict(transport=tr, ka=ka, T=1, R=1, cmd='read', prior='1:' + letter)
+                jobs.append((cfg, 'product', 2, alphabet(tr), ['ok'], None))
+                if any(x in letter for x in ('1.5T', 'T+e', '1.2T', '+fin', 'dup', '2x', 'invalid+')):
+                    jobs.append((dict(cfg, drain=True), 'product', 2, alphabet(tr), ['ok'], None))
     # R=3 with deviation bound
     for tr in ('udp', 'tcp'):
         for ka in (False, True):
@@ -247,6 +262,6 @@ def replay(r):
         return out
     cfg = r['cfg']
     ctx = Ctx(r['choices'])
-    obs = run_single(cfg, ctx, r['letters'], r['conn_letters'], fp=False, prior=PRIORS[cfg.get('prior', 'none')])
+    obs = run_single(cfg, ctx, r['letters'], r['conn_letters'], fp=False, prior=prior_of(cfg.get('prior', 'none')))
     return dict(script=obs.letters, connects=obs.connects, result=obs.result[:3],
                 tx_times=[t for t, _, _ in obs.txs], done=obs.t1, violations=monitor(cfg, obs))
